@@ -1,6 +1,8 @@
 """C13 — incremental parsing is independent of how the input is fragmented.
 
-1. obligations: Props/C13.lean (lake build, axiom audit) + driver drv_incr
+1. obligations: translator harness/translate_incr.py -> Generated/Incr.lean (the three scanner shapes the model is
+   written for: match-length test of scan_regex, byte-boundary guard of _consume, wide-unit refusal of scan_bit),
+   Props/C13.lean (lake build, axiom audit) + driver drv_incr
 2. real code, every case in a worker process with a hard time limit (harness/impl/incr_real.py):
    for every generated (grammar, input) ALL 2^(n-1) compositions (n <= 10; longer inputs sampled):
    new_parse / consume(piece)… / can_continue after every piece
@@ -21,7 +23,11 @@
      (d) for grammars that are finite unions of terminal sequences: the model's `feed` on the same pieces —
          complete parses (as leaf sequences), resumable incomplete states and can_continue after every piece
      (e) the hypotheses of the theorems per case: CutStable of the regex oracle on all infixes of the input
-         (against `re` / `regex`), alignment of the real table
+         (against `re` / `regex`)
+   Besides the general classes the generator has five classes aimed at the parser repairs of the last session —
+   empty-regex (179bde08), mixed-bits (a33087ac), wide-char (1ef12755), open-rep (b48dd899), nullable-pred
+   (1d73281f) — each with a characteristic event that is counted (`hit:<class>`); a class without a single hit
+   is a machinery error (a degenerate generator must not look like agreement).
 """
 from __future__ import annotations
 
@@ -30,17 +36,22 @@ import os
 import re
 from typing import Any
 
-from harness.common import Run, driver_ask, lean_check, use_repo
+from harness import translate_incr
+from harness.common import VERIF, MachineryError, Run, driver_ask, lean_check, use_repo
 from harness.gen.grammars import CORNER_SPECS, gen_spec
 from harness.impl.pool import run_pool
 
 PID = "C13"
 SIG_SPLIT = "C13/regex-nongreedy-split"
+CORPUS = VERIF / "corpus" / "C13"
+NEW_CLASSES = ["empty-regex", "mixed-bits", "wide-char", "open-rep", "nullable-pred"]
 
 TRUSTED = [
     "Lean 4.33.0 kernel; axioms ⊆ {propext, Classical.choice, Quot.sound} (audited per run)",
     "hand-written scanner model lean/Model/Incremental.lean of scan_bytes/scan_regex/scan_bit/_consume/"
-    "can_continue; tied by this run's scan-call correspondence and (linear grammars) whole-run correspondence",
+    "can_continue; tied by this run's scan-call correspondence and (linear grammars) whole-run correspondence, "
+    "and by the translator harness/translate_incr.py (pins the AST of the match-length test of scan_regex, of "
+    "the byte-boundary guard of _consume and of the wide-unit refusal of scan_bit: C13_source_configuration)",
     "the predict/complete closure is abstract in the theorems: laws Engine.Lawful/LawfulCC are assumed of it "
     "(proved for the linear engine); for the real closure they rest on the differential observation (a),(b)",
     "regex oracle = CPython `re.match` and `regex` partial matching, asked the way Terminal.check asks; "
@@ -50,10 +61,140 @@ TRUSTED = [
 ]
 
 
+def _w(x) -> list[int]:
+    return [ord(c) for c in x] if isinstance(x, str) else list(x)
+
+
+def load_corpus() -> list[dict]:
+    out = []
+    if CORPUS.is_dir():
+        for f in sorted(CORPUS.glob("*.json")):
+            c = json.loads(f.read_text())
+            out.append({"spec": c["spec"], "kind": c["kind"], "cls": c.get("cls", "corpus"),
+                        "features": ["corpus"] + c.get("features", []), "words": c["words"]})
+    return out
+
+
+BIT_RULE = "<b> ::= 0 | 1\n"
+
+
+def gen_empty_regex(rng) -> dict:
+    """regexes that match the empty string: before another symbol, alone, at the end, under ? / * / {n,m}, next
+    to each other, inside a nonterminal"""
+    eps_re = ['r"[0-9]*"', 'r"a?"', 'r"a*"', 'r"(xy)*"', 'r"(ab)?"', 'r"[a-c]{0,2}"', 'r"b?"']
+    lits = ['"x"', '"ab"', '"a"', '"b"', '"xy"', '"1"']
+    r1, r2 = rng.choice(eps_re), rng.choice(eps_re)
+    l1, l2 = rng.choice(lits), rng.choice(lits)
+    shape = rng.choice(["before", "alone", "end", "opt", "star", "two", "nt", "alt", "mid", "rep"])
+    body, rules = {
+        "before": (f"{r1} {l1}", ""),
+        "alone": (f"({r1})", ""),
+        "end": (f"{l1} {r1}", ""),
+        "opt": (f"({r1})? {l1}", ""),
+        "star": (f"({r1} {l1})* {l2}", ""),
+        "two": (f"{r1} {r2} {l1}", ""),
+        "nt": (f"<n> {l1} <n>", f"<n> ::= {r1}\n"),
+        "alt": (f"{r1} {l1} | {l1} {r1} | {l2}", ""),
+        "mid": (f"{l1} {r1} {l2}", ""),
+        "rep": (f"({r1}){{0,2}} {l1}", ""),
+    }[shape]
+    # inputs: the fuzzer's members + short words over the units the spec mentions (non-members, empty matches)
+    alpha = sorted({ord(c) for c in "ab1x"} | {ord(c) for c in l1 + l2 if c not in '"'})
+    extra = [[rng.choice(alpha) for _ in range(rng.randint(1, 4))] for _ in range(3)]
+    extra += [_w(l1.strip('"')), _w(l1.strip('"') + l2.strip('"'))]
+    return {"spec": f"<start> ::= {body}\n{rules}", "kind": "str", "cls": "empty-regex",
+            "features": ["empty-regex", "eps-" + shape], "extra_words": extra}
+
+
+def gen_mixed_bits(rng) -> dict:
+    """bit groups whose sizes are not multiples of eight next to text / bytes / regex terminals"""
+    payload = ['b"a"', 'b"ab"', 'rb"a*"', 'rb"[a-c]"', '"a"', 'b"\\xff"', 'rb"[\\x00-\\xff]"']
+    parts = []
+    for _ in range(rng.randint(2, 4)):
+        x = rng.random()
+        if x < 0.55:
+            n = rng.choice([1, 3, 4, 4, 5, 7, 8, 9, 12])
+            parts.append(rng.choice([f"<b>{{{n}}}", " ".join(rng.choice("01") for _ in range(min(n, 8)))]))
+        elif x < 0.65:
+            parts.append("<b>*")
+        else:
+            parts.append(rng.choice(payload))
+    if not any("<b>" in p or p[0] in "01" for p in parts):
+        parts.insert(0, "<b>{4}")
+    if all("<b>" in p or p[0] in "01" for p in parts):
+        parts.insert(rng.randint(1, len(parts)), rng.choice(payload))
+    units = [0x61, 0x62, 0x1F, 0x6A, 0xFF, 0x16]
+    extra = [[rng.choice(units) for _ in range(rng.randint(1, 4))] for _ in range(4)]
+    return {"spec": "<start> ::= " + " ".join(parts) + "\n" + BIT_RULE, "kind": "bytes", "cls": "mixed-bits",
+            "features": ["mixed-bits"], "extra_words": extra}
+
+
+def gen_wide_char(rng) -> dict:
+    """bit grammars fed text with characters above U+00FF (and their low bytes, as controls)"""
+    body = rng.choice(['<b>{8}', '<b>{8} "š"', '(<b>{8})*', '<b>{8} r"[^a]"', '"š" <b>{8}', '<b>{4} <b>{4} <b>{8}',
+                       '0 1 1 0 0 0 0 1', '(<b>{8} | "š") "a"', '<b>{8} "日"?'])
+    chars = ["š", "a", "日", "ā", "é", "š"]
+    extra = [_w("".join(rng.choice(chars) for _ in range(rng.randint(1, 3)))) for _ in range(4)]
+    extra.append(_w("š"))
+    return {"spec": f"<start> ::= {body}\n" + BIT_RULE, "kind": "str", "cls": "wide-char",
+            "features": ["wide-char"], "extra_words": extra}
+
+
+def gen_open_rep(rng, quick: bool) -> dict:
+    """open-ended {n,} repetitions, inputs beyond 20 iterations (the generator's cap is not a parser cap)"""
+    n = rng.choice([0, 1, 2, 3, 21])
+    item, unit = rng.choice([('"a"', "a"), ('("ab")', "ab"), ('r"[0-9]"', "7"), ('<x>', "a"), ('"é"', "é")])
+    tail, tl = rng.choice([("", ""), (' "b"', "b"), (' "a"', "a")])
+    rules = '<x> ::= "a" | "c"\n' if item == "<x>" else ""
+    k = rng.choice([21, 22, 25] if quick else [21, 23, 30, 41])
+    words = [_w(unit * k + tl), _w(unit * (k + 1) + tl), _w(unit * 20 + tl)]
+    if tl:
+        words.append(_w(unit * k))
+    return {"spec": f"<start> ::= {item}{{{n},}}{tail}\n{rules}", "kind": "str", "cls": "open-rep",
+            "features": ["open-rep"], "words": words, "exhaust_len": 8, "sample_comps": 24 if quick else 60}
+
+
+def gen_nullable_pred(rng) -> dict:
+    """a nullable nonterminal that is completed (empty) in a column before another state that waits for it is
+    added to that column (the shape of 1d73281f)"""
+    spec, words = rng.choice([
+        ('<start> ::= <a> <b> "x"\n<a> ::= <b>\n<b> ::= "y"?\n', ["x", "yx", "yyx", "y"]),
+        ('<start> ::= <s1> <s2>\n<s1> ::= "a" <s2>\n<s2> ::= "b"?\n', ["a", "ab", "abb"]),
+        ('<start> ::= <e> <e> "x"\n<e> ::= "" | "y"\n', ["x", "yx", "yyx"]),
+        ('<start> ::= <a> <a>\n<a> ::= <e> | "z"\n<e> ::= ""\n', ["z", "zz"]),
+        ('<start> ::= <o> <p> <o> "end"\n<o> ::= "ab"?\n<p> ::= <o> "c"?\n', ["end", "abend", "abcabend", "ababend"]),
+        ('<start> ::= <l> "." <l>\n<l> ::= <d>*\n<d> ::= "0" | "1"\n', [".", "1.", ".01", "10.01"]),
+        ('<start> ::= <h>{2} "k"\n<h> ::= <i>?\n<i> ::= "i"\n', ["k", "ik", "iik"]),
+        ('<start> ::= <a> <b> <c>\n<a> ::= <b>\n<b> ::= <c>\n<c> ::= "c"?\n', ["c", "cc", "ccc"]),
+    ])
+    return {"spec": spec, "kind": "str", "cls": "nullable-pred", "features": ["nullable-pred"],
+            "words": [_w(x) for x in words]}
+
+
+NEW_FIXED = [
+    # the inputs named in the commit messages of the repairs, and the Lean examples
+    ('<start> ::= r"[0-9]*" "x"\n', "str", "empty-regex", ["x", "1x", "12x", "12", "xx"]),
+    ('<start> ::= (r"a*")\n', "str", "empty-regex", ["a", "aaa", "aab", "b"]),
+    ('<start> ::= r"a?" "b" | "b" r"a?"\n', "str", "empty-regex", ["b", "ab", "ba", "aab"]),
+    ('<start> ::= "a" r"b*"\n', "str", "empty-regex", ["a", "ab", "abb", "ac"]),
+    ('<start> ::= (r"[0-9]*")? "x"\n', "str", "empty-regex", ["x", "7x"]),
+    ('<start> ::= (r"a?" "b")* "c"\n', "str", "empty-regex", ["c", "bc", "abbc", "ababc"]),
+    ('<start> ::= r"(ab)?" <y>\n<y> ::= "ab" | ""\n', "str", "empty-regex", ["ab", "abab", "a"]),
+    ('<start> ::= <b>{4} b"a" <b>{4}\n' + BIT_RULE, "bytes", "mixed-bits", [b"a\x1f", b"\x6a\x1f", b"\x6a"]),
+    ('<start> ::= <b>{4} <b>{4} b"a"\n' + BIT_RULE, "bytes", "mixed-bits", [b"ja", b"j", b"jab"]),
+    ('<start> ::= <b>{3} rb"a*" <b>{5} b"x"\n' + BIT_RULE, "bytes", "mixed-bits", [b"jx", b"jax", b"x"]),
+    ('<start> ::= 0 1 1 0 b"a" 1 1 1 1 | 0 1 1 0 0 0 0 1 b"a"\n', "bytes", "mixed-bits", [b"a\x1f", b"aa", b"a"]),
+    ('<start> ::= <b>{8}\n' + BIT_RULE, "str", "wide-char", ["š", "a", "ša"]),
+    ('<start> ::= <b>{8} "š"\n' + BIT_RULE, "str", "wide-char", ["aš", "šš", "aa"]),
+    ('<start> ::= 0 1 1 0 0 0 0 1\n', "str", "wide-char", ["š", "a"]),
+    ('<start> ::= <a> <b> "x"\n<a> ::= <b>\n<b> ::= "y"?\n', "str", "nullable-pred", ["x", "yx", "yyx"]),
+]
+
+
 def mk_cases(run: Run, tier: str) -> list[dict]:
     rng = run.rng("grammars")
     quick = tier == "quick"
-    cases = []
+    cases = load_corpus()
     for spec, kind in CORNER_SPECS:
         cases.append({"spec": spec, "kind": kind, "cls": "corner", "features": ["corner"],
                       "n_words": 4, "max_len": 9 if quick else 10})
@@ -65,8 +206,7 @@ def mk_cases(run: Run, tier: str) -> list[dict]:
     # shapes of the open finding (a regex match that can end in more than one place), so that the exact
     # prediction of it is exercised on every seed: acceptance itself depends on the cut; preferred-alternative
     # regexes; repetition of a regex; bytes; a regex between literals; three-way splits
-    def w(x):
-        return [ord(c) for c in x] if isinstance(x, str) else list(x)
+    w = _w
     for spec, kind, words in [
         ('<start> ::= <n> "3"\n<n> ::= r"[0-9]+"\n', "str", ["123", "1233", "3", "12"]),
         ('<start> ::= <n> <k>\n<n> ::= r"ab|a"\n<k> ::= r"bc|c"\n', "str", ["abc", "ac", "abbc"]),
@@ -84,17 +224,32 @@ def mk_cases(run: Run, tier: str) -> list[dict]:
     ]:
         cases.append({"spec": spec, "kind": kind, "cls": "corner", "features": ["corner", "regex-split"],
                       "words": [w(x) for x in words]})
-    n_gen = 400 if quick else 1600
+    for spec, kind, cls, words in NEW_FIXED:
+        cases.append({"spec": spec, "kind": kind, "cls": cls, "features": ["corner", cls],
+                      "words": [w(x) for x in words]})
+    cases.append({"spec": '<start> ::= "a"{2,}\n', "kind": "str", "cls": "open-rep", "features": ["corner", "open-rep"],
+                  "words": [w("a" * 25), w("a" * 21), w("a")], "exhaust_len": 8, "sample_comps": 24 if quick else 60})
+    n_gen = 340 if quick else 1400
+    n_new = 24 if quick else 90            # per new class
     if os.environ.get("VERIF_C13_NGEN"):      # development aid (mutation trials on a loaded machine); not a tier
         n_gen = int(os.environ["VERIF_C13_NGEN"])
+        n_new = max(2, n_gen // 16)
     classes = ["text", "regex", "bytes", "bits", "recursive"]
     for i in range(n_gen):
         cls = classes[i % len(classes)]
-        g = gen_spec(rng, cls)
+        # every other grammar of the general classes may use empty-matching regexes and {n,} repetitions
+        g = gen_spec(rng, cls, empty_regex=True, nested_reps=True) if i % 2 else gen_spec(rng, cls)
         g.update({"n_words": 2 if quick else 3, "max_len": rng.choice([5, 6, 7, 8] if quick else [6, 8, 9, 10])})
         if not quick and i % 10 == 0:
             g.update({"max_len": 16, "exhaust_len": 10, "sample_comps": 60})
         cases.append(g)
+    for i in range(n_new):
+        for g in (gen_empty_regex(rng), gen_mixed_bits(rng), gen_wide_char(rng), gen_nullable_pred(rng)):
+            g.setdefault("n_words", 2)
+            g.setdefault("max_len", rng.choice([4, 5, 6] if quick else [5, 6, 8]))
+            cases.append(g)
+        if i % 3 == 0:
+            cases.append(gen_open_rep(rng, quick))
     for i, c in enumerate(cases):
         c.setdefault("seed", rng.randrange(1 << 30))
         c.setdefault("exhaust_len", 10)
@@ -132,7 +287,17 @@ def check_result(run: Run, case: dict, res: dict, corr: list, scan_reqs: list, r
                   "cut_stable": stable, "aligned": aligned})
         run.count("inputs")
         run.count("compositions", rec["n_comps"])
-        run.count(f"class:{case['cls']}")
+        cls = case["cls"]
+        run.count(f"class:{cls}")
+        if whole["final"]:
+            run.count(f"class:{cls}:accepted")
+        # characteristic events of the classes aimed at the parser repairs (a class without a hit is degenerate)
+        if not aligned:
+            run.count("hit:mixed-bits(payload terminal waits off a byte boundary)")
+        if n > 20 and whole["final"] and "open-rep" in case.get("features", []):
+            run.count("hit:open-rep(accepted input of more than 20 units under {n,})")
+        if cls == "nullable-pred" and whole["final"]:
+            run.count("hit:nullable-pred(accepted)")
         run.count("len:%d" % min(n, 12))
         run.count("accepted" if whole["final"] else "rejected")
         if whole.get("raised"):
@@ -225,11 +390,24 @@ def check_result(run: Run, case: dict, res: dict, corr: list, scan_reqs: list, r
                 run.count("scan:resumed")
             if any(o["inc"] for o in sc["outs"]):
                 run.count("scan:parks_incomplete")
+            if any(o["col"] == sc["k"] for o in sc["outs"]):
+                run.count("scan:adds_to_same_column")
+                if sc["fn"] == "scan_regex" and any(o["col"] == sc["k"] and not o["inc"] for o in sc["outs"]):
+                    run.count("hit:empty-regex(scan_regex advances on a match of length 0)")
+                    if not sc["rest"]:
+                        run.count("scan:empty_match_at_end_of_fragment")
+            if sc["fn"] == "scan_bit" and sc["rest"] and sc["rest"][0] > 255:
+                run.count("hit:wide-char(scan_bit sees a unit above 0xFF)")
+            if sc["fn"] != "scan_bit" and sc["k"] % 8:
+                run.count("scan:payload_scanned_off_byte_boundary")
         # (d) whole-run model for linear grammars
-        if res["alts"] is not None and aligned:
+        if res["alts"] is not None:
             for r in rec["runs"]:
                 if not r["steps"]:
                     continue
+                run.count(f"class:{cls}:corr_run")
+                if not aligned:
+                    run.count("corr:run_misaligned")
                 pieces, i = [], 0
                 for ln in r["comp"]:
                     pieces.append(word[i:i + ln])
@@ -322,7 +500,11 @@ def replay(path: str) -> int:
 def main(tier: str) -> int:
     run = Run(PID, tier, "proof")
     use_repo()
+    gen = translate_incr.regenerate()
     lean = lean_check("Props.C13", ["drv_incr"])
+    for r in gen["refusals"]:
+        lean.broken.append({"module": "Generated.Incr", "reason": "translator refused: " + r})
+    run.coverage["generated_config"] = gen["constants"]
     cases = mk_cases(run, tier)
     quick = tier == "quick"
     # generous limits: the machine is shared, a loaded machine must not turn slow cases into missing cases
@@ -355,8 +537,14 @@ def main(tier: str) -> int:
     run.coverage["correspondence_disagreements"] = len(corr)
     run.coverage["disagreement_samples"] = corr[:5]
     if ok_share < 0.6:
-        from harness.common import MachineryError
         raise MachineryError(f"only {ok_share:.0%} of the grammars could be run (timeouts/errors): {run.counters}")
+    hits = {c: sum(v for k, v in run.counters.items() if k.startswith(f"hit:{c}(")) for c in NEW_CLASSES}
+    run.coverage["class_hits"] = hits
+    run.coverage["class_inputs"] = {c: run.counters.get(f"class:{c}", 0) for c in NEW_CLASSES}
+    print(f"[C13] classes aimed at the parser repairs: inputs {run.coverage['class_inputs']} hits {hits}")
+    dead = [c for c in NEW_CLASSES if not hits[c]]
+    if dead and not os.environ.get("VERIF_C13_NGEN"):
+        raise MachineryError(f"degenerate generator: no characteristic event for the class(es) {dead}: {hits}")
     if (not lean.ok or corr) and not run.violations:
         what = []
         if not lean.ok:
@@ -368,8 +556,12 @@ def main(tier: str) -> int:
                    {"broken_obligations": lean.broken, "correspondence": corr[:20]}, no_input=True)
     return run.finish(
         lean,
-        rule="grammars: corner list + seeded generator over {text (literals >= 3 units, multi-byte characters, "
-             "shared prefixes), regex, bytes, bits (groups of eight), recursive}; inputs: members by the real "
-             "fuzzer + one-edit near misses; all 2^(n-1) compositions for n <= 10, sampled beyond; a case is "
-             "non-trivial when the input is accepted, has >= 2 units and >= 2 compositions; distinct by (spec, input)",
+        rule="grammars: corpus/C13 + corner list + seeded generator over {text (literals >= 3 units, multi-byte "
+             "characters, shared prefixes), regex (every other grammar with empty-matching regexes and {n,}), bytes, "
+             "bits (groups of eight), recursive} + five classes aimed at the parser repairs {empty-regex, mixed-bits "
+             "(bit groups of any size next to text/bytes/regex terminals), wide-char (bit grammars fed characters "
+             "above U+00FF), open-rep ({n,} beyond 20 iterations), nullable-pred}; inputs: members by the real "
+             "fuzzer + one-edit near misses + (new classes) short random words over the units of the spec; all "
+             "2^(n-1) compositions for n <= 10 (open-rep: n <= 8), sampled beyond; a case is non-trivial when the "
+             "input is accepted, has >= 2 units and >= 2 compositions; distinct by (spec, input)",
         trusted_base=TRUSTED)
